@@ -27,7 +27,7 @@ LEVEL_RULE = ('one obligation per (unpack strategy, non-raising path, stored val
               'distinct = distinct (rule, function, normalised construct)')
 ASSUMPTIONS = [
     'struct.Struct.unpack / struct.unpack raise struct.error unless the buffer has exactly calcsize(fmt) bytes (stdlib table)',
-    'int.from_bytes accepts any length, int(x, 16) any number of digits: lenient (stdlib table)',
+    'int.from_bytes accepts any length, int(x, 16) any number of digits, iter_unpack any whole number of items: lenient (stdlib table)',
     'bytes.find returns the lowest index or -1; bytes.index raises; re search returns None when there is no match',
     'user-defined Field subclasses outside bisturi/ are not analysed',
 ]
@@ -81,6 +81,8 @@ def decoder_kind(ctx, ci, value, sl):
         return UNKNOWN, 'unpack on unknown receiver %s' % canon(recv)
     if nm in ('int.from_bytes',):
         return LENIENT, 'int.from_bytes accepts any length'
+    if isinstance(f, ast.Attribute) and f.attr == 'iter_unpack':
+        return LENIENT, 'iter_unpack accepts any whole number of items and yields as many as there are'
     if isinstance(f, ast.Name) and f.id in ('int', 'bytes', 'bytearray', 'ord', 'str', 'memoryview', 'list', 'tuple'):
         return LENIENT, '%s() accepts any length' % f.id
     if isinstance(f, ast.Name) and f.id in ('StructUnpack',):
@@ -195,13 +197,52 @@ def check_flow(ctx, ci, fi, path, eff, rule='R4-strict-decode'):
     return n
 
 
-def packet_stores(path):
+MUTATORS = ('append', 'extend', 'insert', '__setitem__', '__iadd__')
+
+
+def stored_containers(func):
+    """local names whose object is put on the packet (setattr(pkt, name, xs) / pkt.a = xs), and the
+    local aliases of their mutating methods (append = xs.append)"""
+    names, aliases = set(), {}
+    for n in ast.walk(func):
+        if isinstance(n, ast.Call) and isinstance(n.func, ast.Name) and n.func.id == 'setattr' and len(n.args) == 3 \
+                and isinstance(n.args[0], ast.Name) and n.args[0].id in ('pkt', 'packet') and isinstance(n.args[2], ast.Name):
+            names.add(n.args[2].id)
+        elif isinstance(n, ast.Assign) and isinstance(n.value, ast.Name) and any(
+                isinstance(t, ast.Attribute) and isinstance(t.value, ast.Name) and t.value.id in ('pkt', 'packet') for t in n.targets):
+            names.add(n.value.id)
+    for n in ast.walk(func):
+        if isinstance(n, ast.Assign) and len(n.targets) == 1 and isinstance(n.targets[0], ast.Name) and isinstance(n.value, ast.Attribute) \
+                and isinstance(n.value.value, ast.Name) and n.value.value.id in names and n.value.attr in MUTATORS:
+            aliases[n.targets[0].id] = n.value.value.id
+    return names, aliases
+
+
+class _Flow:
+    """a value that reaches the packet by being added to a container the packet holds"""
+    kind = 'container'
+
+    def __init__(self, eff, name, value):
+        self.name, self.value, self.lineno = name, value, eff.lineno
+
+
+def packet_stores(path, func=None):
     out = []
+    names, aliases = stored_containers(func) if func is not None else (set(), {})
     for e in path.all_effects():
         if e.kind == 'setattr' and isinstance(e.obj, ast.Name) and e.obj.id in ('pkt', 'packet'):
             out.append(e)
         elif e.kind == 'store_attr' and isinstance(e.obj, ast.Name) and e.obj.id in ('pkt', 'packet'):
             out.append(e)
+        elif e.kind == 'call' and isinstance(getattr(e, 'node', None), ast.Call) and e.call.args:
+            f = e.node.func
+            recv = None
+            if isinstance(f, ast.Attribute) and isinstance(f.value, ast.Name) and f.value.id in names and f.attr in MUTATORS:
+                recv = f.value.id
+            elif isinstance(f, ast.Name) and f.id in aliases:
+                recv = aliases[f.id]
+            if recv is not None:
+                out.append(_Flow(e, '%s (held by the packet)' % recv, e.call.args[-1]))
     return out
 
 
@@ -225,7 +266,7 @@ def check(ctx):
         for p in paths:
             if p.raises():
                 continue
-            for eff in packet_stores(p):
+            for eff in packet_stores(p, fi.node):
                 k = check_flow(ctx, ci, fi, p, eff)
                 if k:
                     flows += k
